@@ -113,7 +113,10 @@ def checkStructure (P : Prog) (f : Func) : Except Fault (List Nat) :=
 
 /-- analysis limits of the (untrusted) search -/
 def maxStates : Nat := 60000
-def maxDepth : Nat := 96
+/-- operand-stack depth at which the search gives up: large for the lax machine (a literal with a
+thousand dynamic elements is legitimate), small for the strict machine, whose leaking loops
+(D16) would otherwise be unrolled to the limit -/
+def maxDepth (lax : Bool) : Nat := if lax then 1100 else 96
 
 /-- bookkeeping of the untrusted search: first depth seen per pc and the first edge that reaches a
 pc with another depth (diagnosis of an inconsistent join) -/
@@ -135,7 +138,7 @@ def explore (P : Prog) (f : Func) (cfg : Cfg) :
   | _ + 1, [], _, acc, dg => .ok (acc, dg)
   | fuel + 1, s :: work, seen, acc, dg =>
     if seen.contains s then explore P f cfg fuel work seen acc dg
-    else if s.stk.length > maxDepth || seen.size > maxStates then .error (.tooDeep s.pc, dg)
+    else if s.stk.length > maxDepth cfg.lax || seen.size > maxStates then .error (.tooDeep s.pc, dg)
     else
       match exec P f cfg s with
       | .error e => .error (e, dg)
